@@ -373,6 +373,22 @@ def bvf_forms_items(ctx):
     return BVF_BASE + rhs_bvf_items(ctx) + stub(BVF_CORE) + stub(callee) + verify(["bvf.form_owned_bvf_" + k, "bvf.form_ref_bvf_" + k])
 GROUPS["bvf_forms"] = dict(name="bvf_forms",
     prelude=lambda ctx: WORD_PRELUDE + ["conv_std.rs"] + (VALUE_PRELUDE + ["bvf.rs", "bvf_val.rs"] if "SGN" in ctx else ["bvf.rs"]) + rhs_bvf_prelude(ctx), items=bvf_forms_items)
+# ---- native integer conversions (C11). ctx: I storage word, J native integer type (u8..u64)
+def int_conv_prelude(ctx):
+    return (WORD_PRELUDE + ["conv_std.rs"] + VALUE_PRELUDE + ["bvf.rs", "bvf_val.rs", "iarray.rs", word_j(), ("value_word.rs", {"I": "{J}", "X": "_{J}"}),
+            ("chunk.rs", {"Y": "_{J}"}), ("int_conv.rs", {"Y": "_{J}"})])
+GROUPS["int_from_bvf"] = dict(name="int_from_bvf", prelude=int_conv_prelude,
+    items=lambda ctx: BVF_BASE + int_impl_j(ctx) + stub(BVF_CORE) + slice_ia() + with_ctx(stub(["bvf.int_len", "bvf.get_int"]), YJ) + stub(["bvf.significant_bits"]) + with_ctx(verify(["int.try_from_bvf"]), YJ))
+def int_conv_prelude_d(ctx):
+    j = ctx["J"]
+    sfx = {"Y": "" if j == "u64" else "_" + j}
+    p = BVD_VAL_PRELUDE + ["iarray.rs"]
+    if j != "u64":
+        p += [word_j(), ("value_word.rs", {"I": "{J}", "X": "_{J}"}), "int_shl.rs"]
+    p += [("chunk.rs", sfx), ("int_conv.rs", sfx), ("int_trunc.rs", sfx)]
+    return p
+GROUPS["int_from_bvd"] = dict(name="int_from_bvd", features="#![feature(allocator_api)]", prelude=int_conv_prelude_d,
+    items=lambda ctx: BVD_BASE + int_impl_j(ctx) + stub(BVD_CORE) + stub(["bvd.significant_bits"]) + with_ctx(verify(["int.try_from_bvd"]), yj_d(ctx)))
 GROUPS["mul_theory"] = dict(name="mul_theory", prelude=lambda ctx: WORD_PRELUDE + VALUE_PRELUDE + ["value_mul.rs"], items=lambda ctx: [("decl", "decl.Bit")])
 
 def cmp_prelude(ctx):
